@@ -1,6 +1,7 @@
 package basestore
 
 import (
+	"berty.tech/go-orbit-db/verifhook"
 	"context"
 	"encoding/binary"
 	"encoding/json"
@@ -45,6 +46,7 @@ func SaveSnapshot(ctx context.Context, b iface.Store) (cid.Cid, error) {
 		return cid.Cid{}, fmt.Errorf("unable to serialize snapshot: %w", err)
 	}
 
+	verifhook.At("snapshot.header", b, oplog.Len())
 	headerSize := len(header)
 	if headerSize > math.MaxUint16 {
 		return cid.Cid{}, fmt.Errorf("unable to save snapshot: header of %d bytes does not fit the 16-bit length prefix of the snapshot format", headerSize)
@@ -72,6 +74,7 @@ func SaveSnapshot(ctx context.Context, b iface.Store) (cid.Cid, error) {
 		rs = append(rs, entryJSON...)
 	}
 
+	verifhook.At("snapshot.entries", b)
 	rs = append(rs, 0)
 
 	rsFileNode := files.NewBytesFile(rs)
